@@ -462,10 +462,9 @@ Definition field_types : list tyclass := Eval vm_compute in map f_ty project_sch
 Definition wrap_lists (st : settings) : settings :=
   map (fun tkv : tyclass * (str * pv) =>
          let (t, kv) := tkv in
-         match snd kv with
-         | PList _ => kv
-         | v => if is_list_ty t then (fst kv, PList [v]) else kv
-         end) (combine field_types st).
+         if is_list_ty t
+         then match snd kv with PList _ => kv | v => (fst kv, PList [v]) end
+         else kv) (combine field_types st).
 
 Definition plist (v : pv) : list pv := match v with PList l => l | _ => [] end.
 
@@ -516,9 +515,11 @@ Definition union_exts (a b : pv) : res pv :=
   | None => Unmodelled (s "set of non-string extensions")
   end.
 
-Definition post_init (st0 : settings) : res settings :=
-  let st := sset (s "relative") (PBool (py_eq (sget (s "project_url") st0) (PStr []))) st0 in
-  let st := wrap_lists st in
+Definition set_relative (st0 : settings) : settings :=
+  sset (s "relative") (PBool (py_eq (sget (s "project_url") st0) (PStr []))) st0.
+
+(* the checks and updates between the list wrapping and the extra_filetypes conversion *)
+Definition post_core (st : settings) : res settings :=
   do clash <- first_in (s "extensions") (plist (sget (s "fixed_extensions") st)) (sget (s "extensions") st);
   if clash then Err (s "ValueError") (s "extensions") true else
   do mods <- match py_iter (sget (s "extra_mods") st) with Some l => Ok l | None => te (s "extra_mods") end;
@@ -535,10 +536,17 @@ Definition post_init (st0 : settings) : res settings :=
            end;
   let st := sset (s "extra_mods") em st in
   do _ <- check_docmarks st docmark_pairs;
+  Ok st.
+
+(* a list of file types (tables in TOML) becomes a dict keyed by extension *)
+Definition filetypes_step (st : settings) : res settings :=
   match sget (s "extra_filetypes") st with
   | PList l => do ps <- mapM file_type_of_dict l; Ok (sset (s "extra_filetypes") (dict_of_pairs ps) st)
   | _ => Ok st
   end.
+
+Definition post_init (st0 : settings) : res settings :=
+  do st <- post_core (wrap_lists (set_relative st0)); filetypes_step st.
 
 (* ProjectSettings applied to the keyword arguments kw *)
 Definition construct (kw : list (str * pv)) : res settings :=
